@@ -21,8 +21,10 @@ type Req struct {
 	Need  string
 }
 
-// Ballast is written to the file whenever the file has the parent of Path but not Path itself
-// (empty lists the schema requires, e.g. mechanisms.finalizers). It defines no leaf.
+// Ballast is written to the file whenever the file has the parent of Path but not Path itself:
+// things the schema requires of a file (empty lists such as mechanisms.finalizers, the endpoint of
+// an authenticator whose optional properties are the bound leaves). It is never given by the
+// environment and never observed.
 type Ballast struct {
 	Path string
 	Text string
@@ -44,6 +46,15 @@ var mechanismBallast = []Ballast{
 	{Path: "mechanisms.authenticators", Text: "[]"},
 	{Path: "mechanisms.finalizers", Text: "[]"},
 }
+
+// the schema demands one of the endpoints as soon as a jwt / oauth2_introspection authenticator has
+// a config at all; the bound leaves are its optional properties
+//
+//nolint:gochecknoglobals
+var authenticatorConfigBallast = append([]Ballast{
+	{Path: "mechanisms.authenticators.0.config.metadata_endpoint", Text: "http://idp.local/meta0"},
+	{Path: "mechanisms.authenticators.1.config.metadata_endpoint", Text: "http://idp.local/meta1"},
+}, mechanismBallast...)
 
 // Bindings lists, per shape class of spec/ConfigMerge.tla (ShapeClass), the real configuration
 // paths the abstract leaves are bound to, in the order of the abstract leaves.
@@ -156,7 +167,7 @@ var Bindings = map[string][]Binding{
 	},
 	// << m.l.0.a, m.l.0.c.x, m.l.0.c.y_z, m.l.1.a, m.l.1.b, m.l.1.c.x >> : maps inside list elements
 	"list-of-struct-nested": {
-		{Name: "authenticators-config", Ballast: mechanismBallast, Leaves: []LeafBinding{
+		{Name: "authenticators-config", Ballast: authenticatorConfigBallast, Leaves: []LeafBinding{
 			lb("mechanisms.authenticators.0.id", KString, "an0a", "an0b"),
 			lb("mechanisms.authenticators.0.config.cache_ttl", KAnyString, "5m", "7m"),
 			lb("mechanisms.authenticators.0.config.allow_fallback_on_error", KAnyBool, "true", "false"),
@@ -203,7 +214,7 @@ var Bindings = map[string][]Binding{
 	},
 	// << m.l.0.a, m.l.0.c.s.0, m.l.0.c.s.1, m.l.1.a, m.l.1.c.s.0, b_c >> : lists inside list elements
 	"list-in-list": {
-		{Name: "authenticators-assertions-audience", Ballast: mechanismBallast, Leaves: []LeafBinding{
+		{Name: "authenticators-assertions-audience", Ballast: authenticatorConfigBallast, Leaves: []LeafBinding{
 			lb("mechanisms.authenticators.0.id", KString, "an0a", "an0b"),
 			lb("mechanisms.authenticators.0.config.assertions.audience.0", KAnyString, "aud-0a", "aud-0b"),
 			lb("mechanisms.authenticators.0.config.assertions.audience.1", KAnyString, "aud-1a", "aud-1b"),
